@@ -4,6 +4,7 @@ package main
 // Monitor M3 only: executions the property equates are compared with each other.
 
 import (
+	"io"
 	"fmt"
 	"math/rand/v2"
 	"strconv"
@@ -159,9 +160,46 @@ func literalFamily(rng *rand.Rand) poolCase {
 	return poolCase{prog: sb.String(), sels: sels, input: []byte(in.String()), kind: "literal-content", multi: true}
 }
 
+// compareFamily: comparisons, contains() and match cases over containers with several members of mixed kinds; whatever
+// the outcome is (false, true, or a runtime error for a container against a scalar), it is the same every time
+func compareFamily(rng *rand.Rand) poolCase {
+	vals := []string{"1", "2", "'s'", "[1]", "[1, 2]", "{z: 1}", "{}", "null", "true", "[]", "5.5", "'1'"}
+	obj := func() string {
+		n := 2 + rng.IntN(5)
+		parts := make([]string, n)
+		for i := range parts {
+			parts[i] = fmt.Sprintf("k%d: %s", i, vals[rng.IntN(len(vals))])
+		}
+		return "{" + strings.Join(parts, ", ") + "}"
+	}
+	a, b := obj(), obj()
+	if rng.IntN(3) == 0 {
+		b = a
+	}
+	ops := []string{"==", "!=", "<", ">="}
+	var sb strings.Builder
+	fmt.Fprintf(&sb, "BEGIN { a = %s; b = %s; c = a }\n", a, b)
+	fmt.Fprintf(&sb, "BEGIN { print 'start'; print a %s b }\n", ops[rng.IntN(4)])
+	fmt.Fprintf(&sb, "END { print [a, 1].contains(b), 'contains' }\nEND { print match (a) { {} => 'empty', other => 'other' } }\nEND { print a %s c, [a] %s [b] }\n", ops[rng.IntN(4)], ops[rng.IntN(2)])
+	return poolCase{prog: sb.String(), input: []byte("[1]"), kind: "container-comparison", multi: true}
+}
+
 func c10Pool(rng *rand.Rand) poolCase {
+	pc := c10PoolRaw(rng)
+	if pc.input != nil && rng.IntN(12) == 0 {
+		// a byte order mark, or other bytes a reader-side convenience might treat specially, before the first value
+		pc.input = append([]byte([]string{"\xef\xbb\xbf", "\xef\xbb", "\xfe\xff", "\x1e", " \n\t", "\xef\xbb\xbf\n"}[rng.IntN(6)]), pc.input...)
+		pc.kind += "+prefixed-input"
+	}
+	return pc
+}
+
+func c10PoolRaw(rng *rand.Rand) poolCase {
 	if rng.IntN(10) == 0 {
 		return literalFamily(rng)
+	}
+	if rng.IntN(12) == 0 {
+		return compareFamily(rng)
 	}
 	switch rng.IntN(12) {
 	case 0, 1, 2, 3:
@@ -206,10 +244,39 @@ type c10Sig struct {
 	root   string
 }
 
-func c10RunOnce(pc poolCase) (c10Sig, bool) {
+// dribble delivers its bytes in pieces of the given sizes (cycled), the way a slow pipe or socket does
+type dribble struct {
+	data  []byte
+	sizes []int
+	i     int
+}
+
+func (d *dribble) Read(p []byte) (int, error) {
+	if len(d.data) == 0 {
+		return 0, io.EOF
+	}
+	n := d.sizes[d.i%len(d.sizes)]
+	d.i++
+	if n > len(p) {
+		n = len(p)
+	}
+	if n > len(d.data) {
+		n = len(d.data)
+	}
+	copy(p, d.data[:n])
+	d.data = d.data[n:]
+	return n, nil
+}
+
+func c10RunOnce(pc poolCase) (c10Sig, bool) { return c10RunChunked(pc, nil) }
+
+func c10RunChunked(pc poolCase, sizes []int) (c10Sig, bool) {
 	var files []InFile
 	if pc.input != nil {
 		files = []InFile{{Name: "in.json", Data: pc.input}}
+		if sizes != nil {
+			files = []InFile{{Name: "in.json", Reader: &dribble{data: append([]byte{}, pc.input...), sizes: sizes}}}
+		}
 	}
 	o := RunLib(pc.prog, files, pc.sels, RunOpts{Budget: 100000, WantRoot: true})
 	if o.Class == "budget" {
@@ -346,6 +413,23 @@ func c10Run(c *Case) {
 			return
 		}
 	}
+	// the same bytes delivered in small pieces (the result is a function of the bytes, not of how reads happen to split them)
+	if pc.input != nil {
+		for _, sizes := range [][]int{{1}, {2, 1}, {1, 3, 2, 7}, {5}} {
+			got, ok := c10RunChunked(pc, sizes)
+			if !ok {
+				c.Inconclusive("budget")
+				return
+			}
+			c.Count("executions_compared")
+			c.Count("deliveries_in_small_pieces")
+			if d := sigDiff(ref, got); d != "" {
+				rp["read_sizes"] = fmt.Sprint(sizes)
+				c.Violation(fmt.Sprintf("the same input bytes delivered in reads of %v bytes give a different result: %s | program: %s | input starts %q", sizes, d, clip(pc.prog, 160), clip(string(pc.input), 30)), nil, rp)
+				return
+			}
+		}
+	}
 	// after a run of the position-preserving sibling (same layout, other literal contents)
 	{
 		sib := pc
@@ -418,7 +502,7 @@ func c10Run(c *Case) {
 func init() {
 	register(&Prop{
 		ID: "C10", Level: "exploration",
-		Rule: "metamorphic: a case (program, selectors, input) drawn from a pool (object family: print / printf %v / for-in / json() / key collection+sort / pluck over objects with 2-16 keys from literals and from the input; whole-grammar programs; a literal-content family whose output depends on every regex / string / number literal at fixed source positions, in rules, functions, match cases and selectors; structured, function, assignment-history, match programs; document printing; selectors; 12 'disturber' programs that assign to method names, fail inside calls, hit limits, build cycles) is executed in-process 8 times back to back, 3 more times each after 1-3 unrelated pool/disturber runs in the same process, once more after its position-preserving sibling (same layout, every string / regex / number literal replaced by other content of the same length, in program and selectors), and (every 4th case) in 4 fresh processes of the binary with -o -; stdout, JSON output (or its error) and outcome class must be byte-identical across all of them. Non-trivial = the case touches an object with >= 2 keys or a prototype method; distinct by program+input+selectors. Go randomises map iteration per range statement, so an order-dependent output over n >= 3 keys repeats 11 times by chance with probability < 1e-8.",
+		Rule: "metamorphic: a case (program, selectors, input) drawn from a pool (object family: print / printf %v / for-in / json() / key collection+sort / pluck over objects with 2-16 keys from literals and from the input; whole-grammar programs; a container-comparison family (objects of 2-6 mixed members compared, searched and matched: the outcome, error or not, is the same every time); inputs prefixed with a byte order mark, half of one, a record separator or white space; a literal-content family whose output depends on every regex / string / number literal at fixed source positions, in rules, functions, match cases and selectors; structured, function, assignment-history, match programs; document printing; selectors; 12 'disturber' programs that assign to method names, fail inside calls, hit limits, build cycles) is executed in-process 8 times back to back, 3 more times each after 1-3 unrelated pool/disturber runs in the same process, 4 times with the same input bytes delivered in reads of 1 / 1-2 / 1-7 / 5 bytes, once more after its position-preserving sibling (same layout, every string / regex / number literal replaced by other content of the same length, in program and selectors), and (every 4th case) in 4 fresh processes of the binary with -o -; stdout, JSON output (or its error) and outcome class must be byte-identical across all of them. Non-trivial = the case touches an object with >= 2 keys or a prototype method; distinct by program+input+selectors. Go randomises map iteration per range statement, so an order-dependent output over n >= 3 keys repeats 11 times by chance with probability < 1e-8.",
 		NumCases: func(tier string) int {
 			if tier == "thorough" {
 				return 60000
